@@ -67,6 +67,15 @@ theorem C15_tgen_clamp_before_scan : ord_rewrite_clamp_scan = "before" := by dec
 theorem C10_tgen_manifest_order :
     ord_flush_manifest_wal = "before" ∧ ord_compact_manifest_replace = "before" ∧
     ord_compact_replace_delete = "before" := by decide
+/-- SyncWrites: the WAL a request was written to is msynced inside `writeToLSM` — per request,
+    after its `mt.Put`s, on the memtable that is current *for that request* (`ensureRoomForWrite`
+    runs before every `writeToLSM` and may rotate the memtable in the middle of a batch) — and
+    `writeRequests` acknowledges (`done(nil)`) only afterwards; the value log is msynced by
+    `valueLog.write`. This is the `sync (.mem fid)` atom closing `walProg` of every request. -/
+theorem C10_tgen_sync_per_request :
+    has_writeToLSM_syncwal = "yes" ∧ has_writeRequests_syncwal = "no" ∧ ord_writeToLSM_put_sync = "before" ∧
+    ord_writeRequests_room_lsm = "before" ∧ ord_writeRequests_lsm_done = "before" ∧
+    has_vlogwrite_sync = "yes" := by decide
 theorem C07_tgen_manifest_order :
     ord_flush_manifest_wal = "before" ∧ ord_compact_manifest_replace = "before" := by decide
 theorem C03_tgen_commit_order :
